@@ -129,6 +129,8 @@ class Executor:
         self.inputs = {}        # var name -> T (declared harness inputs, for models)
         self.strict_uninit = False
         self.merge_fns = set()
+        self.bv_first = False      # small finite domains: decide obligations by bit-blasting (width from interval analysis)
+        self.bv_timeout = 120
         self.premise_points = {}   # (fn name, result name) -> True: the nsw obligation there is *assumed* (stated premise)
         self.stop_on_fail = True
         self.sample_limit = 6
@@ -469,6 +471,23 @@ class Executor:
             if st.heavy: self.solver.pop()
     def _flush2(self, st, obs):
         neg = smt.or_(*[smt.not_(c) for c, _ in obs])
+        if self.bv_first:
+            # finite-domain obligations: bit-blast.  Hypotheses that do not fit the width are dropped (sound for 'unsat').
+            small = [(c, d) for c, d in obs if (smt.bv_width_for([c]) or 99) <= 40]
+            if small:
+                hyps = [f for f in list(st.pc) + list(st.heavy) if (smt.bv_width_for([f]) or 99) <= 40]
+                t0 = time.time()
+                r, _m = smt.solve_bv(hyps + [smt.or_(*[smt.not_(c) for c, _ in small])], self.bv_timeout)
+                self.res.queries += 1; self.res.solver_time += time.time() - t0
+                self.res.bv_queries = getattr(self.res, "bv_queries", 0) + 1
+                if r == "unsat":
+                    self.res.discharged += len(small)
+                    for c, d in small[:2]:
+                        if len(self.res.samples) < self.sample_limit:
+                            self.res.samples.append({"obligation": d, "formula": smt.to_smt(c)[:400], "path_conds": len(st.pc), "backend": "QF_BV (z3), width from interval analysis"})
+                    obs = [o for o in obs if o not in small]
+                    if not obs: return
+                    neg = smt.or_(*[smt.not_(c) for c, _ in obs])
         r = self._check(neg)
         if r == "unsat":
             self.res.discharged += len(obs)
